@@ -509,3 +509,153 @@ Theorem c15_iso_loop_exit_heap_empty : forall fl nbrs w pick K fuel ds ds',
   loop (step_fl fl nbrs w pick K) fuel ds = DOk ds' -> d_heap ds' = [].
 Proof. exact Par_Iso_Proof.loop_exit_heap_empty. Qed.
 Print Assumptions c15_iso_loop_exit_heap_empty.
+
+(* ---------------------------------------------------------------- wave 3: the team that RUNS the region
+   "the same embedding for any number of threads and any assignment of loop iterations to threads": the theorems above
+   take a valid assignment for granted.  Par_Team_Model describes where the assignment comes from (a worksharing `omp for`
+   inside / outside an `omp parallel` of the same function; a hand-made cyclic schedule with the source of its first
+   iteration and of its stride) and the execution environment (team size 1..omp_get_max_threads(), the caller's team). *)
+From TK Require Import Par_Team_Model Par_Team_Proof.
+
+(* T25 bernstein for an assignment that gives every iteration to AT MOST one thread: still no race; the footprints of the
+   iterations that were given to a thread hold what they leave there; every key written only by iterations nobody was given
+   still holds its INITIAL value ("the rows of the missing threads are never written") *)
+Theorem c15_bernstein_partial :
+  forall (K : Type) (K_eqb : K -> K -> bool), (forall x y, K_eqb x y = true <-> x = y) ->
+  forall (V C : Type) (n : nat) (body : nat -> prog K V C) (R W : nat -> K -> Prop),
+    fp_disjoint n R W ->
+    (forall i, i < n -> within (R i) (W i) (body i)) ->
+    (forall i, i < n -> reinit (fun _ => False) (body i)) ->
+  forall (m0 : K -> V) (pref : nat -> K -> V) asg p0 sch qs st,
+    partial_asg n asg ->
+    run_sched K_eqb sch (init_queues body asg, mkState m0 p0 []) = (qs, st) ->
+    ~ race qs /\
+    (done qs ->
+       (forall i x, i < n -> covered asg i -> W i x -> sh st x = Final K K_eqb V C body m0 pref i x) /\
+       (forall x, (forall i, i < n -> W i x -> ~ covered asg i) -> sh st x = m0 x) /\
+       (forall i, i < n -> covered asg i -> proj i (clog st) = isolog K K_eqb V C body m0 pref i) /\
+       (forall j c, In (j, c) (clog st) -> j < n)).
+Proof. exact Par_Proof.bernstein_partial. Qed.
+Print Assumptions c15_bernstein_partial.
+
+(* T26 the hand-made schedule  for (k = tid; k < n; k += step)  run by a team of `team` threads:
+   step = team (omp_get_num_threads() inside the region): every iteration exactly once, for EVERY n and EVERY team size;
+   step >= team: every iteration at most once, and iteration i is executed iff i mod step < team;
+   step > team (omp_get_max_threads() while a smaller team runs the region): iteration `team` is executed by nobody *)
+Theorem c15_cyclic_valid : forall n team, 1 <= team -> valid_asg n (cyclic_asg team team n).
+Proof. exact Par_Team_Proof.cyclic_valid. Qed.
+Print Assumptions c15_cyclic_valid.
+
+Theorem c15_cyclic_covered_iff : forall n team step, 1 <= step -> team <= step ->
+  partial_asg n (cyclic_asg team step n) /\
+  forall i, i < n -> (covered (cyclic_asg team step n) i <-> i mod step < team).
+Proof. exact Par_Team_Proof.cyclic_partial_covered. Qed.
+Print Assumptions c15_cyclic_covered_iff.
+
+Theorem c15_cyclic_max_refuted : forall n team step, team < step -> team < n ->
+  ~ covered (cyclic_asg team step n) team.
+Proof. exact Par_Team_Proof.cyclic_max_refuted. Qed.
+Print Assumptions c15_cyclic_max_refuted.
+
+(* T27 an orphaned worksharing loop (no `omp parallel` of its own function around it) binds to the CALLER's team: one call
+   executes only the calling thread's share; it is complete exactly when the runtime gives every iteration to the caller *)
+Theorem c15_orphan_valid_iff : forall n sched tid, valid_asg n sched ->
+  partial_asg n (orphan_asg sched tid) /\
+  (forall u i, u <> tid -> In i (sched u) -> ~ covered (orphan_asg sched tid) i) /\
+  (valid_asg n (orphan_asg sched tid) <-> forall u i, In i (sched u) -> u = tid).
+Proof. exact Par_Team_Proof.orphan_all. Qed.
+Print Assumptions c15_orphan_valid_iff.
+
+(* T28 the decision procedure on distribution descriptors: accepted => a valid assignment in EVERY environment (team size
+   1..max, any caller's team, any runtime schedule); the two rejected forms seeded against this check lose iterations *)
+Theorem c15_dist_ok_valid : forall d, dist_ok d = true ->
+  forall e n, env_ok e n -> valid_asg n (dist_asg d e n).
+Proof. exact Par_Team_Proof.dist_ok_valid. Qed.
+Print Assumptions c15_dist_ok_valid.
+
+Theorem c15_dist_max_refuted : forall e n, env_ok e n -> e_team e < e_max e -> e_team e < n ->
+  partial_asg n (dist_asg (DCyclic FirstTid SrcMaxThreads) e n) /\
+  ~ covered (dist_asg (DCyclic FirstTid SrcMaxThreads) e n) (e_team e) /\
+  ~ valid_asg n (dist_asg (DCyclic FirstTid SrcMaxThreads) e n).
+Proof. exact Par_Team_Proof.dist_max_refuted. Qed.
+Print Assumptions c15_dist_max_refuted.
+
+Theorem c15_dist_orphan_refuted : forall e n, env_ok e n ->
+  partial_asg n (dist_asg (DWorkshare false) e n) /\
+  (forall u i, u <> e_tid e -> In i (e_sched e u) -> ~ covered (dist_asg (DWorkshare false) e n) i) /\
+  (valid_asg n (dist_asg (DWorkshare false) e n) <-> forall u i, In i (e_sched e u) -> u = e_tid e).
+Proof. exact Par_Team_Proof.dist_orphan_refuted. Qed.
+Print Assumptions c15_dist_orphan_refuted.
+
+(* T29 regions: accepted footprints + accepted distribution => for every environment, every interleaving: no race and the
+   result of the serial run;  accepted footprints + stride omp_get_max_threads(): the keys of the iterations with
+   i mod max >= team keep their initial value *)
+Theorem c15_region_team_bernstein : forall (V C : Type) (accs : list access) (d : dist) (n : nat)
+    (body : nat -> prog key V C) (m0 : key -> V),
+  check_shared accs = true -> dist_ok d = true ->
+  (forall i, (i < n)%nat -> within (Ad accs i) (Wd accs i) (body i)) ->
+  (forall i, (i < n)%nat -> reinit (fun _ => False) (body i)) ->
+  forall e, env_ok e n ->
+  forall p0 p0' sch qs st,
+    run_sched key_eqb sch (init_queues body (dist_asg d e n), mkState m0 p0 []) = (qs, st) ->
+    ~ race qs /\
+    (done qs ->
+       let sq := seq_run key_eqb body (seq 0 n) (mkState m0 p0' []) in
+       (forall x, sh st x = sh sq x) /\ (forall i, proj i (clog st) = proj i (clog sq))).
+Proof. exact Par_Team_Proof.region_team_bernstein. Qed.
+Print Assumptions c15_region_team_bernstein.
+
+Theorem c15_region_team_partial : forall (V C : Type) (accs : list access) (n : nat)
+    (body : nat -> prog key V C) (m0 : key -> V) (pref : nat -> key -> V),
+  check_shared accs = true ->
+  (forall i, (i < n)%nat -> within (Ad accs i) (Wd accs i) (body i)) ->
+  (forall i, (i < n)%nat -> reinit (fun _ => False) (body i)) ->
+  forall e, env_ok e n ->
+  forall p0 sch qs st,
+    run_sched key_eqb sch (init_queues body (dist_asg (DCyclic FirstTid SrcMaxThreads) e n), mkState m0 p0 []) = (qs, st) ->
+    ~ race qs /\
+    (done qs ->
+       (forall i x, i < n -> i mod e_max e < e_team e -> Wd accs i x ->
+          sh st x = Final key key_eqb V C body m0 pref i x) /\
+       (forall x, (forall i, i < n -> Wd accs i x -> e_team e <= i mod e_max e) -> sh st x = m0 x)).
+Proof. exact Par_Team_Proof.region_team_partial. Qed.
+Print Assumptions c15_region_team_partial.
+
+(* T30 obligations on the generated table: every region has a distribution entry and all are accepted (no orphaned
+   worksharing construct, no hand-made schedule with a stride from outside the region) — so each generated region is
+   covered exactly once by whatever team runs it *)
+Theorem c15_gen_dists_ok :
+  forallb (fun p => dist_ok (snd p)) dists = true /\ map fst dists = map r_name regions.
+Proof. exact Par_Region_Gen.gen_dists_ok. Qed.
+Print Assumptions c15_gen_dists_ok.
+
+Theorem c15_gen_dists_valid : forall nm d, In (nm, d) dists ->
+  forall e n, env_ok e n -> valid_asg n (dist_asg d e n).
+Proof. exact Par_Region_Gen.gen_dists_valid. Qed.
+Print Assumptions c15_gen_dists_valid.
+
+(* non-vacuity and witnesses *)
+Example c15_team_env_example : env_ok (witness_env 5) 5 /\ dist_ok (DWorkshare true) = true /\
+  dist_ok (DCyclic FirstTid SrcTeam) = true /\ dist_ok (DCyclic FirstTid SrcMaxThreads) = false /\
+  dist_ok (DWorkshare false) = false.
+Proof. exact Par_Team_Proof.team_env_example. Qed.
+
+Example c15_team_max_example :
+  dist_asg (DCyclic FirstTid SrcMaxThreads) (witness_env 5) 5 0 = [0; 4] /\
+  uncovered (dist_asg (DCyclic FirstTid SrcMaxThreads) (witness_env 5) 5) 8 5 = [1; 2; 3] /\
+  uncovered (dist_asg (DCyclic FirstTid SrcTeam) (witness_env 5) 5) 8 5 = [] /\
+  dist_asg (DWorkshare false) (witness_env 5) 5 0 = [0; 3] /\
+  uncovered (dist_asg (DWorkshare false) (witness_env 5) 5) 8 5 = [1; 2; 4] /\
+  uncovered (dist_asg (DWorkshare true) (witness_env 5) 5) 8 5 = [].
+Proof. exact Par_Team_Proof.team_max_example. Qed.
+
+Example c15_team_max_program_refuted :
+  fst (team_final (DCyclic FirstTid SrcMaxThreads)) 0 = [] /\
+  sh (snd (team_final (DCyclic FirstTid SrcMaxThreads))) (mkey "dm" 0 4) = 4%Z /\
+  sh (snd (team_final (DCyclic FirstTid SrcMaxThreads))) (mkey "dm" 4 4) = 44%Z /\
+  sh (snd (team_final (DCyclic FirstTid SrcMaxThreads))) (mkey "dm" 1 1) = (-1)%Z /\
+  sh team_serial (mkey "dm" 1 1) = 11%Z /\
+  sh (snd (team_final (DCyclic FirstTid SrcTeam))) (mkey "dm" 1 1) = 11%Z /\
+  sh (snd (team_final (DWorkshare false))) (mkey "dm" 2 2) = (-1)%Z /\
+  sh team_serial (mkey "dm" 2 2) = 22%Z.
+Proof. exact Par_Team_Proof.team_max_program_refuted. Qed.
